@@ -45,6 +45,8 @@ def shapes(tier):
                 continue     # custom K + offsets: recorded finding of C01 (constructor), not repeated here
             out.append({"nt": nt, "poly": npoly, "noff": noff, "K": K, "units": "plain", "P_unit": "day", "tref": "default", "rows": 1 + (nt % 2), "n_lin": 1 + (npoly % 2)})
     out.append({"nt": 2, "poly": 2, "noff": 1, "K": "default", "units": "sym", "P_unit": "day", "tref": "default", "rows": 1, "n_lin": 1, "slots_only": True})
+    # a cubic trend (three trend columns that must be three different powers)
+    out.append({"nt": 2, "poly": 3, "noff": 0, "K": "default", "units": "plain", "P_unit": "day", "tref": "default", "rows": 1, "n_lin": 1})
     # non-default reference epochs of a single source
     out.append({"nt": 2, "poly": 2, "noff": 0, "K": "default", "units": "plain", "P_unit": "day", "tref": "false", "rows": 1, "n_lin": 1})
     out.append({"nt": 2, "poly": 2, "noff": 0, "K": "default", "units": "plain", "P_unit": "day", "tref": "explicit", "rows": 1, "n_lin": 1})
